@@ -430,6 +430,17 @@ Fixpoint run_deferred (fuel : nat) (choice : list nat) (st : state) (q : list di
     end
   end.
 
+(* one deferred item, chosen among the heads of the queue: the single-step form of run_deferred, used by
+   the driver to follow the order the implementation took *)
+Definition defer_one (st : state) (q : list ditem) (k : nat) : ev (state * list ditem * list obs) :=
+  let hs := heads [] q in
+  let d := nth (Nat.modulo k (length hs)) hs (DPost 0 []) in
+  let q' := remove_first (source_of d) q in
+  match d with
+  | DEvent h v => elet r <- close_txn st [(h, v)] []; EV (r_state r, q' ++ r_deferred r, r_obs r)
+  | DPost kk cs => elet vs <- emap (cur st (F st)) cs; EV (st, q', [BPost kk vs])
+  end.
+
 Definition end_outer (choice : list nat) (st : state) : ev (state * list obs * list nat) :=
   elet r <- close_txn st (sends st) (posts st);
   run_deferred 200 choice (r_state r) (r_deferred r) (r_obs r).
@@ -526,6 +537,36 @@ Definition leave (choice : list nat) (st : state) (acc : list obs) : ev (state *
   match depth st with
   | S O => elet r <- end_outer choice st; EV (fst (fst r), acc ++ snd (fst r), snd r)
   | n => EV (set_depth st (pred n), acc, [])
+  end.
+
+(* like [step] below, but the deferred work of an outermost close is returned instead of run *)
+Definition leave_q (st : state) (acc : list obs) : ev (state * list obs * list ditem) :=
+  match depth st with
+  | S O => elet r <- close_txn st (sends st) (posts st); EV (r_state r, acc ++ r_obs r, r_deferred r)
+  | n => EV (set_depth st (pred n), acc, [])
+  end.
+
+Definition step_q (st : state) (o : op) : ev (state * list obs * list ditem) :=
+  match o with
+  | OBegin => EV (set_depth st (S (depth st)), [], [])
+  | OEnd => leave_q st []
+  | OTNew t =>
+    let st1 := set_depth st (S (depth st)) in
+    EV (mkState (defs st1) (cvals st1) (inits st1) (linit st1) (fired st1) (fresh st1) (loops st1)
+                (listeners st1) (depth st1) (aset (tdone st1) t false) (sends st1) (posts st1) (lazies st1), [], [])
+  | OTClose t =>
+    match alookup (tdone st) t with
+    | Some false =>
+      let st1 := mkState (defs st) (cvals st) (inits st) (linit st) (fired st) (fresh st) (loops st)
+                         (listeners st) (depth st) (aset (tdone st) t true) (sends st) (posts st) (lazies st) in
+      leave_q st1 []
+    | _ => EV (st, [], [])
+    end
+  | _ =>
+    match depth st with
+    | O => elet r <- body (set_depth st 1) o; leave_q (fst r) (snd r)
+    | _ => elet r <- body st o; EV (fst r, snd r, [])
+    end
   end.
 
 (* one script operation. Outside a transaction every operation is its own transaction. *)
